@@ -42,7 +42,8 @@ ASSUMPTIONS = [
 ]
 MUST_REACH = {"polls": 3000, "replays_served": 50, "responses_lost": 100, "events_swallowed": 100, "emptied_responses": 20,
               "injected_delivered": 100, "regions_announced": 30, "teardowns": 20, "states": 100, "histories_judged": 200, "announcing_events_covered": 4, "responses_whose_handling_failed": 30,
-              "steps_on_other_conversations": 300, "events_injected_as_messages": 100}
+              "steps_on_other_conversations": 300, "events_injected_as_messages": 100,
+              "responses_with_two_identical_events": 50, "clock_advances": 50}
 
 KINDS = ["1", "2", "A", "5"]
 ACTIONS = []
@@ -50,20 +51,25 @@ for k in KINDS:
     for lose in ("", "L"):
         for sw in (("", "f", "a") if k != "5" else ("",)):
             ACTIONS.append(f"P{k}{lose}{sw}")
-ACTIONS += ["PX", "I", "D"]
+ACTIONS += ["PX", "I", "D", "W"]
 # the other two conversations (a neighbour region's queue, another avatar in the same simulator): walks only
 OTHER_ACTIONS = ["NP1", "NP1L", "NP2", "NI", "ND", "BP1", "BP1L", "BP2a", "BI", "BPA", "BD"]
 
 
 class EQAddon:
+    """Swallows by position within the response (an addon's verdict may differ between two events that look alike)."""
     def __init__(self):
-        self.swallow = set()
+        self.swallow = set()         # serials (kept for the witnesses)
+        self.swallow_idx = set()     # positions within the current response
+        self.idx = 0
         self.seen = []
 
     def handle_eq_event(self, session, region, event):
         s = serial_of(event)
         self.seen.append(s)
-        if s in self.swallow:
+        i = self.idx
+        self.idx += 1
+        if i in self.swallow_idx:
             return True
         return None
 
@@ -122,6 +128,8 @@ class World:
         for t in self.targets.values():
             t.session.open_circuit(("10.0.0.1", 40001), t.region.circuit_addr, self.transport)
         self.t = self.targets[""]
+        from ..timeshift import TimeShift
+        self.clock = TimeShift().install()
         self.next_serial = 1
         self.announced = {}              # addr -> count of announcements
         self.path = []
@@ -134,7 +142,10 @@ class World:
     eq_url = property(lambda self: self.t.eq_url)
 
     def close(self):
-        self.rig.close()
+        try:
+            self.rig.close()
+        finally:
+            self.clock.uninstall()
 
     def viol(self, mech, what, **extra):
         self.ok = False
@@ -205,6 +216,10 @@ class World:
         for _ in range(n):
             evs.append({"message": "HVTestEvent", "body": {"serial": self.next_serial, "text": "line1\nline2"}})
             self.next_serial += 1
+        if kind == "2" and self.next_serial % 3 == 0:
+            # the simulator says the same thing twice (two events that are equal as values)
+            evs[-1] = copy.deepcopy(evs[-2])
+            self.ctx.count("responses_with_two_identical_events")
         return evs
 
     def poll(self, kind, lose, swallow):
@@ -261,10 +276,14 @@ class World:
         self.t.sim_next_id += 1
         serials = [serial_of(e) for e in events]
         self.addon.swallow = set()
+        self.addon.swallow_idx = set()
+        self.addon.idx = 0
         if swallow == "f":
             self.addon.swallow = {serials[0]}
+            self.addon.swallow_idx = {0}
         elif swallow == "a":
             self.addon.swallow = set(serials)
+            self.addon.swallow_idx = set(range(len(serials)))
         if self.addon.swallow:
             ctx.count("events_swallowed", len(self.addon.swallow))
             self.interesting = True
@@ -297,7 +316,7 @@ class World:
             self.t.expected_stream.extend(got_serials)
             self.deliver(got, False)
             return
-        kept = [s for s in serials if s not in self.addon.swallow]
+        kept = [s for i, s in enumerate(serials) if i not in self.addon.swallow_idx]
         expect = kept + list(self.t.pending_injected)
         handled = self.addon.seen[seen_before:]
         if handled != serials:
@@ -333,7 +352,7 @@ class World:
         self.t.expected_stream.extend(expect)
         self.t.pending_injected = []
         # region registration
-        swallowed_announce = any(s in self.addon.swallow for s in serials if isinstance(s, str) and
+        swallowed_announce = any(i in self.addon.swallow_idx for i, s in enumerate(serials) if isinstance(s, str) and
                                  s.startswith(("enable-", "eac-", "tp-", "cr-")))
         if kind == "A" and swallowed_announce:
             # an announcement an addon swallowed is not acted upon
@@ -405,7 +424,11 @@ class World:
             self.t = self.targets[action[0]]
             action = action[1:]
             self.ctx.count("steps_on_other_conversations")
-        if action == "I":
+        if action == "W":
+            # time passes (half a minute, ten minutes, a day): what was not delivered is still owed
+            self.clock.advance([31, 601, 86401][len(self.path) % 3])
+            self.ctx.count("clock_advances")
+        elif action == "I":
             self.inject()
         elif action == "D":
             self.teardown()
